@@ -16,7 +16,7 @@ def call_chain(body, names):
     return out
 
 
-@rule('P5', props=['C01', 'C02', 'C13', 'C04'], floor=2, configs=('all', 'default'))
+@rule('P5', props=['C01', 'C02', 'C13', 'C04', 'C03'], floor=2, configs=('all', 'default'))
 def p5_shape_change(prog):
     """Entry::add (component absent) and Entry::remove (component present): pop the row, look up / create
     the archetype whose identifier differs in exactly this component's bit, push the row there, store
@@ -159,7 +159,7 @@ def field_of_self(prog, body, op, field):
     return nm is not None and (nm == 'self.' + field or nm.endswith('.' + field))
 
 
-@rule('P7', props=['C13', 'C05', 'C01', 'C10'], floor=6, configs=('all', 'default'))
+@rule('P7', props=['C13', 'C05', 'C01', 'C10', 'C16'], floor=6, configs=('all', 'default'))
 def p7_archetype_tables(prog):
     """Archetype table protocol: (a) an archetype is inserted into raw_archetypes only on the miss branch of
     a lookup of its identifier bytes in foreign_identifier_lookup (one table per component set) and
@@ -276,7 +276,7 @@ def json_s(x):
     return json.dumps(x)
 
 
-@rule('C10a', props=['C10', 'C13', 'C01', 'C04', 'C16'], floor=2, configs=('all', 'default'))
+@rule('C10a', props=['C10', 'C13', 'C01', 'C04', 'C16', 'C06'], floor=2, configs=('all', 'default'))
 def c10a_clone_from_clears(prog):
     """Archetypes::clone_from: every path to return runs the pass that clears (clear_detached) each
     destination archetype that is not the image of a source archetype (test: `!set_of_images.contains`);
@@ -405,7 +405,7 @@ def c10a_clone_from_clears(prog):
     return r
 
 
-@rule('A2', props=['C06', 'C10', 'C16', 'C02'], floor=4, configs=('all',))
+@rule('A2', props=['C06', 'C10', 'C16', 'C02', 'C01', 'C13'], floor=4, configs=('all',))
 def a2_free_list_provenance(prog):
     """The free list is an ordered queue (it decides which identifier the next insert returns and takes
     part in equality): Allocator::clone / clone_from copy it wholesale from the source's `free`, and the
